@@ -192,6 +192,9 @@ func regexpNext(sb *strings.Builder, sl *stringLexer, mode Mode) error {
 					return err
 				}
 			}
+			if sl.peekNext() != ')' {
+				return &SyntaxError{msg: fmt.Sprintf("%c( was not matched with a closing )", op)}
+			}
 			sb.WriteRune(sl.next()) // )
 			if op == '!' {
 				return &NegExtGlobError{Groups: []NegExtGlobGroup{{Start: start, End: sl.i}}}
